@@ -29,7 +29,7 @@ pub fn run(cx: &mut Ctx) {
 fn handwritten_ranges(cx: &mut Ctx, g: &Grammar) {
     let rule = "C02.R9";
     cx.rule(rule, "ranges assigned by hand-written code: (a) the keyword-argument alternatives of FunctionArgument hand parse_args the @L capture before their first symbol and the @R capture after their last; (b) parse_args gives ast::Keyword exactly that pair, in order (never a child's .start()/.end(), which drops parentheses); (c) every other `range` initialiser in function.rs / context.rs / string.rs is one of the reviewed forms — the `range` destructured from the node being rebuilt, StringParser::range(), or first-start..last-end of the concatenated tokens (R5) — and none calls .start()/.end()/.range() on a child");
-    cx.floor(rule, 20);
+    cx.floor(rule, 12);
     // (a)
     match g.def("FunctionArgument") {
         None => cx.anchor_missing(rule, "FunctionArgument"),
